@@ -1232,24 +1232,25 @@ func (rs RangeSorter) Less(i, j int) bool {
 // Ranges are inclusive-inclusive, i.e. [1..3] -> 1, 2, 3.
 func (rs RangeSorter) Normalize() RangeSorter {
 	if ll := rs.Len(); ll > 1 {
+		// Exclusive upper bound of a range; Hi == 0 (or Hi <= Low) denotes the single ID Low.
+		hi := func(r Range) int {
+			if r.Hi <= r.Low {
+				return r.Low + 1
+			}
+			return r.Hi
+		}
 		prev := 0
 		for i := 1; i < ll; i++ {
-			if rs[prev].Low == rs[i].Low {
-				// Earlier range is guaranteed to be wider or equal to the later range,
-				// collapse two ranges into one (by doing nothing)
-				continue
-			}
-			// Check for full or partial overlap
-			if rs[prev].Hi > 0 && rs[prev].Hi+1 >= rs[i].Low {
-				// Partial overlap
-				if rs[prev].Hi < rs[i].Hi {
-					rs[prev].Hi = rs[i].Hi
+			// Ranges are half-open [Low, Hi): they overlap or touch when the next one starts at or before the end.
+			if hi(rs[prev]) >= rs[i].Low {
+				if h := hi(rs[i]); h > hi(rs[prev]) {
+					rs[prev].Hi = h
 				}
-				// Otherwise the next range is fully within the previous range, consume it by doing nothing.
 				continue
 			}
-			// No overlap
+			// No overlap: keep the range.
 			prev++
+			rs[prev] = rs[i]
 		}
 		rs = rs[:prev+1]
 	}
